@@ -61,6 +61,7 @@ func New(root, layout, sub string, marker []byte, files []File, ext ...File) (*W
 	base := filepath.Join(root, filepath.FromSlash(sub))
 	w.Home = filepath.Join(root, "home")
 	os.MkdirAll(w.Home, 0777)
+	os.MkdirAll(filepath.Join(root, "tmp"), 0777)
 	switch layout {
 	case LayoutMod, LayoutModVendor:
 		w.AppDir = filepath.Join(base, "app")
@@ -178,6 +179,7 @@ func (w *World) Env(extra ...string) []string {
 	env := []string{
 		"PATH=" + os.Getenv("PATH"),
 		"HOME=" + w.Home,
+		"TMPDIR=" + filepath.Join(w.Root, "tmp"), // a private temp dir: anything wire might cache there stays inside this world
 		"GOPATH=" + w.Gopath,
 		"GOCACHE=" + goCache(),
 		"GOPROXY=off",
